@@ -7,7 +7,7 @@ import os, subprocess, json
 from lib import vf
 
 MANIFEST = {
- 'text': "Coq theorems over the model of the context types RuleExpression builds (steps registered after a step's own fields are checked; needs = direct, existing dependencies except the job itself; matrix = row keys + include keys, loosened by an expression at matrix / include / include-element level; inputs = union of workflow_call and workflow_dispatch; secrets = declared + automatic, or a string map when undeclared; jobs context for workflow_call outputs) composed with the checker's object-dereference rule: a reference is reported undefined iff the name is not in scope there — for every workflow shape, every step index and every name (induction over steps / needs / include lists). Tie: random workflow shapes with one reference per line linted by the real linter; the verdict per reference is compared with the model evaluated by vm_compute on the AST-derived shapes, and with the property's declarative rule computed from the generator's own description.",
+ 'text': "Coq theorems over the model of the context types RuleExpression builds (steps registered after a step's own fields are checked; needs = direct, existing dependencies except the job itself; matrix = row keys + include keys, loosened by an expression at matrix / include / include-element level; inputs = union of workflow_call and workflow_dispatch; secrets = declared + automatic, or a string map when undeclared; jobs context for workflow_call outputs; for the default of a workflow_call input the loop of VisitWorkflowPre in declaration order, characterised as 'reported iff not declared strictly earlier', never missing an undeclared name, refuted against the property for a declared later / same input - recorded finding - and the repaired loop proved to be the property) composed with the checker's object-dereference rule: a reference is reported undefined iff the name is not in scope there — for every workflow shape, every step index and every name (induction over steps / needs / include lists). Tie: random workflow shapes with one reference per line linted by the real linter; the verdict per reference is compared with the model evaluated by vm_compute on the AST-derived shapes, and with the property's declarative rule computed from the generator's own description.",
  'note': "Trusted: Coq kernel; the hand-written scope model (correspondence-checked); value types are abstracted (only which names exist and strict/loose matter), typed include expressions and outputs of actions / reusable workflows belong to C06 / C14 and are oracle parameters (st_outputs, j_call); property names are lower-cased by the parser (C04/C08).",
  'technique': "machine-checked proof in Coq (scope construction by induction over steps/needs/matrix) + vm_compute correspondence + declarative-scope oracle",
 }
@@ -34,6 +34,16 @@ def run(ctx):
     if bad:
         ctx.broken.append('correspondence C05 (scope model vs linter verdicts): %d of %d workflows disagree' % (len(bad), len(terms)))
         ctx.first_disagreement = {'case': terms[bad[0]][:4000]}
+    dterms = vf.read_lines(os.path.join(ctx.out, 'cases_defaults.txt'))
+    bad2, err2 = vf.coq_cases(ctx, 'C05d', ['Wf.InputDefaults'], '(list (string * list string))', 'run_defaults', dterms, shard=200, ordered=True)
+    if err2:
+        ctx.broken.append('correspondence cases (input defaults) did not evaluate: ' + err2[-400:])
+    if bad2:
+        ctx.broken.append('correspondence C05 (model of the declaration-order loop over workflow_call inputs, Wf/InputDefaults.v visit, vs linter verdicts for references in input defaults): %d of %d workflows disagree' % (len(bad2), len(dterms)))
+        if not bad:
+            ctx.first_disagreement = {'case': dterms[bad2[0]][:4000]}
+    terms = terms + dterms
+    bad = bad + bad2
     ctx.coverage.update({
         'obligations': nthm, 'discharged': ndis,
         'evaluations': s['evaluations'], 'distinct_nontrivial': s['distinct_nontrivial'],
